@@ -34,6 +34,10 @@ func rewardLetters(cur uint32, full bool) []string {
 			l = append(l, fmt.Sprintf("s%d=odd", cur-1))
 		}
 		l = append(l, fmt.Sprintf("sX%d=1L", cur))
+		if cur <= 1 {
+			// LEMO sent along with an accepted / a refused setting
+			l = append(l, fmt.Sprintf("s%d=1L$2", cur), fmt.Sprintf("sX%d=1L$2", cur))
+		}
 		// set + update in one block; set + update + a third change (refused: a value can be changed once)
 		l = append(l, fmt.Sprintf("s%d=1L,s%d=3L", cur, cur), fmt.Sprintf("s%d=1L,s%d=3L,s%d=odd", cur, cur, cur))
 	}
@@ -49,7 +53,12 @@ var (
 		"tVX", "tXpool", "tXinc0", "vVD0", "vXC3",
 		// several transactions in one block: two refunds pending at once; a refund receiver that also pays gas;
 		// register + unregister / top-up in one block; top-up then unregister; income change with a fee in the same block
-		"xC1,xC3", "xC1,tC1X", "rC2,xC2", "rC2,uC2+100", "uC1+50,xC1", "pD0alt,tVX", "pC3alt,tVX", "xD0,xD1", "tC1X,xC1"}
+		"xC1,xC3", "xC1,tC1X", "rC2,xC2", "rC2,uC2+100", "uC1+50,xC1", "pD0alt,tVX", "pC3alt,tVX", "xD0,xD1", "tC1X,xC1",
+		// a first registration with isCandidate=false; an unregister carrying an amount
+		"rC2false", "xC1$5",
+		// boxes: unregister + a payment by the refund receiver; register + top-up; a box whose sub-transaction
+		// fees are credited before an income address change in the same block, and after it
+		"B:xC1;tC1X", "B:rC2;uC2+100", "B:tVX;xC3", "B:tVX,pD0alt", "pD0alt,B:tVX", "B:tVX,pC3alt", "B:xC1;xC3"}
 )
 
 func alphabetFor(cur uint32, size string) []string {
@@ -231,4 +240,99 @@ func replayTerm(c termCase) int {
 		failed += len(r.Violations)
 	}
 	return failed
+}
+
+// compressNotes folds the per-history notes of phase T (one per worker and occurrence) into one line
+// per distinct message with a count and the first history as the example.
+func compressNotes(r *core.Result) {
+	type agg struct {
+		n       int
+		example string
+	}
+	groups := map[string]*agg{}
+	var order []string
+	var rest []string
+	for _, n := range r.Notes {
+		if !strings.HasPrefix(n, "phase T:") {
+			rest = append(rest, n)
+			continue
+		}
+		key, ex := n, ""
+		if i := strings.Index(n, " || "); i > 0 {
+			key, ex = n[:i], n[i+4:]
+		}
+		g := groups[key]
+		if g == nil {
+			g = &agg{example: ex}
+			groups[key] = g
+			order = append(order, key)
+		}
+		g.n++
+	}
+	sort.Strings(order)
+	if len(order) > 12 {
+		rest = append(rest, fmt.Sprintf("phase T: %d further distinct notes dropped", len(order)-12))
+		order = order[:12]
+	}
+	for _, k := range order {
+		g := groups[k]
+		if g.example != "" {
+			rest = append(rest, fmt.Sprintf("%s (noted %d times; first: %s)", k, g.n, g.example))
+		} else {
+			rest = append(rest, fmt.Sprintf("%s (noted %d times)", k, g.n))
+		}
+	}
+	r.Notes = rest
+}
+
+// termRuleText describes phase T for the evidence file.
+func termRuleText() string {
+	var parts []string
+	for _, p := range termPlans() {
+		sc := tScenarios[p.scen]
+		parts = append(parts, fmt.Sprintf("%s/%s(%d letters)/K=%d", p.scen, p.alpha, len(alphabetFor(curTermOf(sc), p.alpha)), p.k))
+	}
+	return "PHASE T (term boundaries, TermDuration=8, InterimDuration=2, two deputies, real node: factory-mined block + other deputy's confirm through InsertBlock, stable before the next block): " +
+		"every history = scenario prefix + one block letter per window height (A*: 7..12, B*: 15..20 = interim-1/term end, snapshot, interim, reward-1, reward block, reward+1) with at most K non-empty blocks, all positions x all letters; plans scenario/alphabet/K: " +
+		strings.Join(parts, ", ") + "; letters: unregister (candidate, elected candidate, genesis deputy, in/out of office), register (min, +99, +150, 1 short, isCandidate=false), top-ups, income-address changes, transfers to/from candidates and into the pool address, votes, set-reward {terms cur-1..cur+2} x {0, 1 LEMO, 3 LEMO, 7 LEMO+3 mo, 900M-1 LEMO, 900M, negative} by the manager and by a stranger, with LEMO attached, set+update(+third change), multi-transaction blocks and boxes; " +
+		"oracle S1-S4 of term.go after every block on the miner's post-state (sum of balance changes == salaries by an independent reference, 0 off reward blocks; no negative balance; deposit ledger; per-account fees / amounts / deposits / refunds / salaries); a distinct outcome of phase T is (height class, tx count, fees, issued, refund receivers, deposits paid)"
+}
+
+// termSelfCheck is the non-vacuity gate of phase T: every height class must have seen every kind of
+// event, every reward setting class must have reached a reward block, refunds must have been paid
+// at once and at the reward block, several in one block, and to an account paying gas in that block.
+func termSelfCheck(r *core.Result) {
+	if os.Getenv("C05_SKIP_TERM") != "" {
+		r.NotExhaustive("phase T skipped (C05_SKIP_TERM)")
+		return
+	}
+	classes := []string{"interim-1(term-end)", "snapshot(interim-start)", "interim", "reward-1", "reward", "reward+1"}
+	var need []string
+	for _, c := range classes {
+		for _, k := range []string{"unregister", "register", "top-up", "profile-update", "transfer", "vote", "set-reward-ok", "set-reward-refused", "box"} {
+			need = append(need, "term_tx/"+k+"@"+c)
+		}
+	}
+	for _, s := range []string{"unset", "0", "1L", "3L(odd-per-deputy)", "7L+3mo(not-multiple-of-precision)", "huge", "negative"} {
+		need = append(need, "term_reward_block/setting="+s)
+	}
+	need = append(need, "term_reward_block/issued>0", "term_refund/at-reward-block@reward", "term_refund/immediate@interim-1(term-end)", "term_refund/immediate@reward+1",
+		"term_refund/immediate-or-at-reward(unregistered-in-reward-block)@reward", "term_blocks_with_more_than_one_refund", "term_refund_to_gas_payer_of_same_block",
+		"term_fees_to_income_address_changed_in_block", "term_discarded_txs", "term_deputy_out_of_office_refunded_at_reward", "term_elected_term_paid_by_votes")
+	var missing []string
+	for _, k := range need {
+		if r.Counters[k] == 0 {
+			missing = append(missing, k)
+		}
+	}
+	if len(missing) > 0 {
+		r.NotExhaustive("phase T coverage self-check: never hit " + strings.Join(missing, ", "))
+	}
+	hit := map[string]int64{}
+	for k, v := range r.Counters {
+		if strings.HasPrefix(k, "term_") {
+			hit[k] = v
+		}
+	}
+	r.Extra["term_hit_counts"] = hit
 }
